@@ -139,28 +139,61 @@ REL_QUERIES = {
 }
 
 
+def _atoms(node, val, out):
+    """facts implied by `node` having truth value `val`:  out[atom text] = bool"""
+    if isinstance(node, ast.UnaryOp) and isinstance(node.op, ast.Not):
+        return _atoms(node.operand, not val, out)
+    if isinstance(node, ast.BoolOp):
+        if (isinstance(node.op, ast.And) and val) or (isinstance(node.op, ast.Or) and not val):
+            for x in node.values:
+                _atoms(x, val, out)
+        return
+    if isinstance(node, ast.Compare) and len(node.ops) == 1 and isinstance(node.ops[0], ast.NotIn):
+        out[f'{norm(node.left)} in {norm(node.comparators[0])}'] = not val
+        return
+    out[norm(node)] = val
+
+
+def _requested(facts):
+    """three-valued truth of `relation_types and '*' not in relation_types` under the path facts of a statement variant"""
+    at = {}
+    whole = None
+    for text, val in facts.items():
+        try:
+            node = ast.parse(text, mode='eval').body
+        except SyntaxError:
+            continue
+        if norm(node) == "relation_types and '*' not in relation_types":
+            whole = val
+        _atoms(node, val, at)
+    a, b = at.get('relation_types'), at.get("'*' in relation_types")
+    if a is True and b is False:
+        return True
+    if a is False or b is True:
+        return False
+    return whole
+
+
 def r2_sibling_relation_queries(ctx, res):
     for fname, (reltable, tgttable) in REL_QUERIES.items():
         f = ctx.repo.func('_queries', fname)
         loc = f.module.loc(f.node)
-        # (a) the type-filter guard
+        # (a) the type filter is present exactly when types were requested and '*' is not among them (read off the path facts of
+        #     the statement variants, so the guard may live in this function or in a helper)
         key = f'type-guard:{fname}'
-        guards = []
-        for n in walk_no_nested(f.node):
-            if isinstance(n, ast.If) and any(isinstance(s, ast.Assign) and any(isinstance(t, ast.Name) and t.id == 'constraint'
-                                                                              for t in s.targets) for s in n.body):
-                guards.append(n)
-        res.inst(key, loc, f'{[norm(g.test) for g in guards]}')
-        if len(guards) != 1:
-            res.find(key, loc, f'{fname}: expected exactly one conditional type filter, found {len(guards)}')
-        else:
-            t = guards[0].test
-            parts = [norm(v) for v in t.values] if isinstance(t, ast.BoolOp) and isinstance(t.op, ast.And) else [norm(t)]
-            if sorted(parts) != sorted(['relation_types', "'*' not in relation_types"]):
-                res.find(key, loc,
-                         f"{fname} builds its type filter under `{norm(t)}`; its siblings use `relation_types and '*' not in "
-                         f"relation_types`: without the emptiness test a call without relation types asks for `type IN ()` and "
-                         f'returns nothing instead of all relations')
+        sites0 = ctx.sites_of(f.key)
+        vs0 = [v for s in sites0 for v in s.variants if v.stmt is not None]
+        res.inst(key, loc, f'{len(vs0)} variants')
+        mk = S_MARK('qs', 'relation_types')
+        for v in vs0:
+            tv = _requested(v.facts)
+            requested, decided = tv is True, tv is False
+            if mk in v.sql and not requested:
+                res.find(key, loc, f"{fname} applies its type filter under {dict(v.facts)}; its siblings filter exactly when `relation_types and "
+                                   f"'*' not in relation_types`: without the emptiness test a call without relation types asks for `type IN ()` "
+                                   f'and returns nothing instead of all relations')
+            if mk not in v.sql and not decided:
+                res.find(key, loc, f'{fname} omits the type filter under {dict(v.facts)}: requested relation types are ignored')
         # (b) statement shape
         sites = ctx.sites_of(f.key)
         vs = [v for s in sites for v in s.variants if v.stmt is not None]
